@@ -140,8 +140,19 @@ def rp_stub(frame, spacing=None, **kw):
     return out
 
 
-def iou_stub(f1, f2):
+_IOU_X = z3.Function("IOU_called_with_extra_arguments", z3.IntSort(), z3.IntSort(), z3.RealSort())
+
+
+def iou_stub(f1, f2, *xa, **extra):
+    """contract stub of _compute_ious(frame1, frame2).  If a changed caller passes MORE than the two frames the
+    contract says nothing about the result: the values are then terms of a different uninterpreted function, the
+    obligation fails in the engine and the real kernel decides in the replay."""
     from sx.arr import _as_sarr
+
+    fn = _IOU
+    if xa or extra:
+        cur().tag("iou_stub:extra_arguments")
+        fn = _IOU_X
 
     f1 = _as_sarr(f1) if isinstance(f1, np.ndarray) else f1
     f2 = _as_sarr(f2) if isinstance(f2, np.ndarray) else f2
@@ -154,7 +165,7 @@ def iou_stub(f1, f2):
             inter = count(And(x == a, y == b) for x, y in zip(c1, c2))
             if cur().decide(inter > 0):
                 union = count(Or(x == a, y == b) for x, y in zip(c1, c2))
-                out.append((a, b, SReal(_IOU(inter, union))))
+                out.append((a, b, SReal(fn(inter, union))))
     return out
 
 
@@ -341,6 +352,10 @@ def _seg(ctx, cfg):
     if scale_sym:
         scale = [1] + [SReal(z3.Real(f"scale{d}")) for d in range(1, len(shape))]
         ctx.add(And([s.e > 0 for s in scale[1:]]))
+        # counterexamples are easier to replay with voxel sizes that are neither 1 nor equal to each other
+        ctx.prefer(And([s.e != 1 for s in scale[1:]]))
+        ctx.prefer(z3.Distinct(*[s.e for s in scale[1:]]) if len(scale) > 2 else z3.BoolVal(True))
+        ctx.prefer(And([Or(s.e == 2, s.e == 3, s.e * 2 == 1) for s in scale[1:]]))
     r = z3.Real("r")
     ctx.add(r >= 0)
     ctx.input("shape", list(shape))
